@@ -241,7 +241,11 @@ FrameBytes(st, fr, chans, number) ==
                      \o PutU(Get(ov, "bscode", bsc.code), 4) \o PutU(Get(ov, "srcode", rc.code), 4)
                      \o PutU(Get(ov, "chcode", chcode), 4) \o PutU(Get(ov, "bpscode", BpsCode(st.bps, Get(st, "bpscode", "hdr"))), 3)
                      \o <<Get(ov, "reserved2", 0)>>)
-                \o CodedNumber(number, Get(fr, "overlong", 0)) \o bsc.extra \o rc.extra
+                \o (LET cn == CodedNumber(number, Get(fr, "overlong", 0))
+                        \* "contxor" <<k, x>>: the k-th continuation byte of the coded number XORed with x (its two marker bits 10 become 11, 00, 01)
+                        cx == Get(fr, "contxor", <<0, 0>>)
+                    IN IF cx[1] >= 1 /\ cx[1] + 1 <= Len(cn) THEN [cn EXCEPT ![cx[1] + 1] = @ ^^ cx[2]] ELSE cn)
+                \o bsc.extra \o rc.extra
         crc8 == Crc8(hdr0, 0, Len(hdr0)) ^^ Get(ov, "crc8xor", 0)
         hdr == Append(hdr0, crc8)
         bodybits == FoldLeft(LAMBDA a, c : a \o subs[c].bits, <<>>, [c \in 1..nch |-> c])
